@@ -36,6 +36,7 @@ type ParserFacts struct {
 	Slots     []SlotStore
 	typeInfo  map[string]nodeTypeInfo
 	treeTypes map[*types.Named]bool
+	wrapDepth int        // depth of error-returning helpers followed into their own helpers
 	prodDepth int        // depth of producers followed through forwarded lists
 	bind      *fnBinding // set while a value is judged inside a reader that was handed functions
 }
@@ -656,6 +657,23 @@ func (pf *ParserFacts) wrapperAtoms(ifi *ssa.If, d *derivation) []guardAtom {
 			}
 			kind, holdsOnTrue, ok := pf.classifyCond(inner.Cond, pd, 0)
 			if !ok {
+				// the helper hands the value to a helper of its own and passes the error on
+				if pf.wrapDepth < 2 {
+					pf.wrapDepth++
+					nested := pf.wrapperAtoms(inner, pd)
+					pf.wrapDepth--
+					for _, na := range nested {
+						failN := b.Succs[1-na.holdsOn]
+						if !leadsToErrorReturn(failN, 0) {
+							continue
+						}
+						holds := 1
+						if bo.Op == token.EQL {
+							holds = 0
+						}
+						out = append(out, guardAtom{kind: na.kind, ifi: ifi, holdsOn: holds})
+					}
+				}
 				continue
 			}
 			fail := b.Succs[0]
